@@ -1,6 +1,7 @@
 """C02 — pub/sub delivery and payload ownership (DESIGN §4 C02)."""
 import lm
 import rules
+from units import AnalysisBroken
 from lm import S, strip, cval, walk, Func
 from props.common import Ctx, has, fmt_facts, guard_retvals
 from props.containers import is_free_call
@@ -384,6 +385,14 @@ def run(ck, P):
     if reads:
         a1 = strip(reads[0].args[1])
         mmv = S(a1["e"]) if a1["k"] == "un" and a1["op"] == "&" else None
+    # the flush empties the mailbox: messages are read one by one in a loop that ends when the (non-blocking) read fails — a single
+    # bounded read leaves the rest of a long backlog in the pipe (not delivered by the end of the loop run, leaked at module stop)
+    in_loop_ = [e for e in reads if e.block.id in fl.in_loop_blocks()]
+    if reads and (not in_loop_ or mmv is None):
+        ck.ob("C02.6-FLUSH-AT-STOP", fl.site("drains the mailbox"), False,
+              "flush_pubsub_msgs reads the pipe %s: a backlog longer than one read is not flushed — messages pending at the end of the loop run are not "
+              "delivered then, and what is left when the module stops leaks" % ("outside any loop" if not in_loop_ else "into something other than one message pointer"))
+        raise AnalysisBroken("flush_pubsub_msgs no longer reads messages one by one")
     ck.need(mmv is not None, "flush_pubsub_msgs no longer reads messages from the pipe")
     badf = None
     nf = 0
@@ -394,6 +403,8 @@ def run(ck, P):
         a = rules.path_assumes(path)
         if not any(k.startswith("(read(") and v is True for k, v in a.items()):
             continue
+        if not rules.simulate(fl, path)[0]:
+            continue          # a flag set on this path contradicts a later test of it (`told = helper(); … if (!told)`)
         nf += 1
         after = evs[max(evs.index(e) for e in reads if e in evs):]
         enq_ = [e for e in after if e.kind == "call" and e.callee == "m_queue_enqueue"]
@@ -405,9 +416,9 @@ def run(ck, P):
           "an iteration enqueues the message for delivery %d time(s) and releases it %d time(s): the handler receives a destroyed message / it is released twice"
           % (badf[0], badf[1]), path=rules.fmt_path(fl, badf[2]) if badf else None)
     enq = [e for e in fl.calls("m_queue_enqueue")]
-    okn = bool(enq) and all(has(X.facts(fl, e), "stopping_mod", False) or has(X.facts(fl, e), "key") for e in enq)
-    sd = [e for e in fl.events() if e.kind == "decl" and e.e.get("name") == "stopping_mod"]
-    okn = okn and (not sd or S(sd[0].rhs) in ("(key == NULL)", "!key"))
+    keyp_ = fl.params[1]["name"] if len(fl.params) > 1 else "key"
+    # (the test may sit in a boolean local of either polarity: facts are read through the locals' definitions)
+    okn = bool(enq) and all(has(rules.resolve_atoms(fl, X.facts(fl, e) or ()), keyp_) for e in enq)
     ck.ob("C02.8-DISCARD-ON-STOP", fl.site("NULL key never delivers"), okn, "enqueue for delivery only when the key is non-NULL: %s" % okn)
 
     ck.not_decided += ["regex/topic matching results", "'at most once each' beyond 'each module is visited once per pass' (C05)",
